@@ -3,6 +3,7 @@ package netx
 import (
 	"crypto/sha1"
 	"fmt"
+	"slices"
 	"sort"
 	"strings"
 	"testing"
@@ -975,16 +976,61 @@ func (e *env41) judgeAllowed(cn *conn41, cmd commands.Command, args []warg, wf b
 	}
 }
 
+// nearValid: authentication data derived from the valid response by a small
+// change (the connection gets a live nonce first, so that only the change
+// stands between the attempt and a login).
+var nearValid = []string{"prefix-name", "prefix-name-nul", "prefix-hash-k", "prefix-any", "empty", "valid-extra",
+	"flip-name", "flip-nul", "flip-hash", "other-user-name", "name-case", "token-prefix", "token-extended"}
+
+var authClasses = append([]string{"valid", "valid", "valid", "stale-nonce", "foreign-nonce", "wrong-hash",
+	"unknown-user-empty-hash", "unknown-user-other-hash", "replay", "token", "token", "spent-token", "random-token",
+	"passhash-plain", "garbage", "no-nonce", "empty-pass-hash", "obtained", "suffix"},
+	append(append([]string(nil), nearValid...), "prefix-name", "prefix-name-nul", "prefix-hash-k", "prefix-any", "empty")...)
+
 // uAuth makes one authentication attempt on unauthenticated connection ui.
 func (e *env41) uAuth(ui int) {
-	t := e.t
 	cn := e.unauth(ui)
 	if !cn.restricted {
 		e.probeUnrestricted(ui, cn)
 		return
 	}
+	class := gen.Pick(e.t, "authclass", authClasses)
+	near := slices.Contains(nearValid, class)
+	if e.uAuthClass(ui, class, near) || !near || e.U[ui] == nil {
+		return
+	}
+	// a near miss must leave the connection as it was: a privileged request
+	// is still refused ...
+	cn = e.U[ui]
+	desc := fmt.Sprintf("U%d: Size after Auth %s", ui, class)
+	e.step("%s", desc)
+	if resp, errstr := rawRequest(cn.c, cn.sess[0], commands.Size, nil, false); errstr == "" {
+		e.fail("%s: not refused, reply %q", desc, resp)
+	}
+	e.checkNoEffect(desc)
+	e.rec.Label("near_valid_auth_then_refused")
+	// ... and the correct response to a new nonce is still accepted
+	if gen.Chance(e.t, "then valid", 60) {
+		if e.uAuthClass(ui, "valid", true) {
+			e.rec.Label("near_valid_auth_then_valid_accepted")
+		}
+	}
+}
+
+// flipByte returns s with one bit of byte i inverted.
+func flipByte(s string, i int, bit uint) string {
+	b := []byte(s)
+	b[i] ^= 1 << (bit % 8)
+	return string(b)
+}
+
+// uAuthClass makes one authentication attempt of the given class and
+// reports whether it was accepted.
+func (e *env41) uAuthClass(ui int, class string, freshNonce bool) bool {
+	t := e.t
+	cn := e.unauth(ui)
 	u := gen.Pick(t, "user", e.users)
-	if gen.Chance(t, "fresh nonce first", 50) {
+	if freshNonce || gen.Chance(t, "fresh nonce first", 50) {
 		desc := fmt.Sprintf("U%d: Nonce", ui)
 		e.step("%s", desc)
 		resp, errstr := rawRequest(cn.c, cn.sess[0], commands.Nonce, nil, false)
@@ -996,12 +1042,50 @@ func (e *env41) uAuth(ui int) {
 	if anyNonce == "" && len(cn.prevNonces) > 0 {
 		anyNonce = cn.prevNonces[len(cn.prevNonces)-1]
 	}
-	class := gen.Pick(t, "authclass", []string{"valid", "valid", "valid", "stale-nonce", "foreign-nonce", "wrong-hash",
-		"unknown-user-empty-hash", "unknown-user-other-hash", "replay", "token", "token", "spent-token", "random-token",
-		"passhash-plain", "garbage", "no-nonce", "empty-pass-hash", "obtained", "suffix"})
 	var s string
 	fromObtained := false
+	valid := u.Name + "\x00" + sha1of(anyNonce+u.Hash)
+	tok := "0123456789abcdef"
+	if toks := e.sortedTokens(); len(toks) > 0 {
+		tok = gen.Pick(t, "tok", toks)
+	}
+	if slices.Contains(nearValid, class) {
+		fromObtained = anyNonce != ""
+	}
 	switch class {
+	case "prefix-name":
+		s = u.Name
+	case "prefix-name-nul":
+		s = u.Name + "\x00"
+	case "prefix-hash-k":
+		s = valid[:len(u.Name)+1+1+gen.Uniform(t, "k", 19)] // 1..19 of the 20 hash bytes
+	case "prefix-any":
+		s = valid[:gen.Uniform(t, "cut", len(valid))]
+	case "empty":
+		s = ""
+	case "valid-extra":
+		s = valid + string(rapid.SliceOfN(rapid.Byte(), 1, 4).Draw(t, "extra"))
+	case "flip-name":
+		s = flipByte(valid, gen.Uniform(t, "pos", len(u.Name)), uint(gen.Uniform(t, "bit", 8)))
+	case "flip-nul":
+		s = flipByte(valid, len(u.Name), uint(gen.Uniform(t, "bit", 8)))
+	case "flip-hash":
+		s = flipByte(valid, len(u.Name)+1+gen.Uniform(t, "pos", 20), uint(gen.Uniform(t, "bit", 8)))
+	case "other-user-name":
+		other := "nobody"
+		for _, o := range e.users {
+			if o.Name != u.Name {
+				other = o.Name
+			}
+		}
+		s = other + "\x00" + sha1of(anyNonce+u.Hash)
+	case "name-case":
+		name := gen.Pick(t, "case", []string{strings.ToUpper(u.Name), strings.ToUpper(u.Name[:1]) + u.Name[1:], u.Name[:1] + strings.ToUpper(u.Name[1:])})
+		s = name + "\x00" + sha1of(anyNonce+u.Hash)
+	case "token-prefix":
+		s = tok[:gen.Uniform(t, "k", len(tok))]
+	case "token-extended":
+		s = tok + string(rapid.SliceOfN(rapid.Byte(), 1, 4).Draw(t, "extra"))
 	case "valid":
 		s = u.Name + "\x00" + sha1of(anyNonce+u.Hash)
 		fromObtained = anyNonce != ""
@@ -1069,7 +1153,7 @@ func (e *env41) uAuth(ui int) {
 	if class == "unknown-user-empty-hash" && live && e.known("auth-unknown-user") {
 		e.step("%s   [skipped: known finding]", desc)
 		e.rec.Label("skipped_known_Auth_unknown_user")
-		return
+		return false
 	}
 	e.step("%s", desc)
 	if e.sawRefused && fromObtained {
@@ -1095,7 +1179,7 @@ func (e *env41) uAuth(ui int) {
 	}
 	e.checkNoEffect(desc)
 	if !got {
-		return
+		return false
 	}
 	// authenticated: everything works now
 	e.okAuths = append(e.okAuths, s)
@@ -1123,12 +1207,13 @@ func (e *env41) uAuth(ui int) {
 	e.rec.Label("auth_success_then_works")
 	e.authed = append(e.authed, cn)
 	e.U[ui] = nil
+	return true
 }
 
 // ---------------------------------------------------------------- the property
 
 func TestC41(t *testing.T) {
-	rec := ev.New("C41", "rapid-generated histories (5-30 steps) of a server whose users table is missing, empty or populated at the start and is created / populated / reduced / emptied / dropped at generated points (directly on the database or by the working party over its connection), with client connections opened at generated points before and after those changes. One party (A) works normally (logs in if the database has users when it connects): update/read transactions, queries, cursors, tokens. On connections opened while the database has users and not authenticated: raw protocol requests for every command code 0..39 plus invalid codes, arguments well formed (ids of A's transactions/queries/cursors, its session id, table names, statements), boundary (bad booleans/bytes, over-announced sizes), truncated, random bytes, trailing bytes; nonce requests and authentication attempts of 19 classes (valid, stale/foreign/consumed nonce, wrong hash, unknown/removed user, replayed string, issued/spent/random token, reply bytes). On connections opened while it has none: read-only requests that must be answered. Non-trivial: a refused request is followed by an authentication attempt built from material obtained on the unauthenticated connection (nonce, reply bytes); distinct = by the rendered step sequence.")
+	rec := ev.New("C41", "rapid-generated histories (5-30 steps) of a server whose users table is missing, empty or populated at the start and is created / populated / reduced / emptied / dropped at generated points (directly on the database or by the working party over its connection), with client connections opened at generated points before and after those changes. One party (A) works normally (logs in if the database has users when it connects): update/read transactions, queries, cursors, tokens. On connections opened while the database has users and not authenticated: raw protocol requests for every command code 0..39 plus invalid codes, arguments well formed (ids of A's transactions/queries/cursors, its session id, table names, statements), boundary (bad booleans/bytes, over-announced sizes), truncated, random bytes, trailing bytes; nonce requests and authentication attempts of 32 classes (valid, stale/foreign/consumed nonce, wrong hash, unknown/removed user, replayed string, issued/spent/random token, reply bytes; near-valid: every kind of proper prefix of the valid response, empty, valid + extra bytes, one bit flipped in name / NUL / hash, other user's name, name case variants, prefix / extension of an issued token - each followed by a privileged request that must be refused and mostly by the correct response to a new nonce). On connections opened while it has none: read-only requests that must be answered. Non-trivial: a refused request is followed by an authentication attempt built from material obtained on the unauthenticated connection (nonce, reply bytes); distinct = by the rendered step sequence.")
 	rec.Assumptions = []string{
 		"rule taken from the property and from where newServerConn takes the decision (once, when it accepts the connection): a connection opened while the database has users is restricted until it authenticates, as long as the database has users; a connection opened while it has none is not restricted while it has none. Nothing is demanded of a connection opened without users after users appear, nor of a restricted one after the users are gone: such connections are set aside (left open) and a new one is opened",
 		"'the database has users' is the harness's own model of the users table (every change to it is a generated event); a first answered request on a new connection is the barrier after which the history continues",
